@@ -159,11 +159,58 @@ static int op_pfeq(toks_t *t)
   return 1;
 }
 
+
+/* pfleg <subsamp> <w> <h> <seed> : the TurboJPEG 2.x entry points (tjCompress2 / tjDecompress2) on ONE compressor and ONE decompressor
+ * handle, every call with another layout, pitch padding and row order (TJFLAG_BOTTOMUP given or not per call): the JPEG must be byte
+ * identical each time and every decoded pixel must sit where the layout of *that* call puts it */
+static int op_pfleg(toks_t *t)
+{
+  int ss = (int)tl(t, 1), w = (int)tl(t, 2), h = (int)tl(t, 3), i, k, x, y, bad = 0; unsigned long long seed = (unsigned long long)tll(t, 4), rs = seed * 2654435761ULL + 99;
+  static const int pfs[7] = { TJPF_RGB, TJPF_BGR, TJPF_RGBX, TJPF_BGRX, TJPF_XBGR, TJPF_XRGB, TJPF_RGBA };
+  unsigned char *pic = (unsigned char *)malloc((size_t)w * h * 3), *ref = NULL, *refdec = NULL; unsigned long refn = 0; char why[220] = "";
+  tjhandle hc = tjInitCompress(), hd = tjInitDecompress();
+  for (i = 0; i < w * h * 3; i++) pic[i] = (unsigned char)c10_byte(seed, i);
+  printf("R ok\n");
+  for (k = 0; k < 12 && !bad; k++) {
+    int pf, bu, pad, ps, pitch; unsigned char *buf, *jp = NULL; unsigned long jn = 0;
+    rs = rs * 6364136223846793005ULL + 1442695040888963407ULL; pf = pfs[(rs >> 33) % 7]; bu = (int)((rs >> 40) & 1); pad = (int)((rs >> 45) % 3) * 5;
+    if (k == 0) { pf = TJPF_RGB; bu = 1; pad = 0; }          /* first call bottom-up, so that a later top-down call follows it */
+    if (k == 1) { bu = 0; }
+    ps = tjPixelSize[pf]; pitch = w * ps + pad;
+    buf = (unsigned char *)malloc((size_t)pitch * h + 16); memset(buf, 0xA5, (size_t)pitch * h);
+    for (y = 0; y < h; y++) for (x = 0; x < w; x++) {
+      unsigned char *px = buf + (size_t)(bu ? h - 1 - y : y) * pitch + x * ps;
+      px[tjRedOffset[pf]] = pic[(y * w + x) * 3]; px[tjGreenOffset[pf]] = pic[(y * w + x) * 3 + 1]; px[tjBlueOffset[pf]] = pic[(y * w + x) * 3 + 2];
+    }
+    if (tjCompress2(hc, buf, w, pitch, h, pf, &jp, &jn, ss, 90, bu ? TJFLAG_BOTTOMUP : 0) < 0) { bad = 1; snprintf(why, sizeof(why), "tjCompress2 call %d: %s", k, tjGetErrorStr2(hc)); }
+    else if (k == 0) { ref = jp; refn = jn; jp = NULL; }
+    else if (jn != refn || memcmp(jp, ref, jn)) { bad = 1; snprintf(why, sizeof(why), "tjCompress2 call %d (pf=%d bottomup=%d pad=%d, after %d calls on the same handle) gives another JPEG than the first call for the same picture", k, pf, bu, pad, k); }
+    if (!bad) {
+      memset(buf, 0x5A, (size_t)pitch * h);
+      if (tjDecompress2(hd, ref, refn, buf, w, pitch, h, pf, bu ? TJFLAG_BOTTOMUP : 0) < 0) { bad = 1; snprintf(why, sizeof(why), "tjDecompress2 call %d: %s", k, tjGetErrorStr2(hd)); }
+      else if (k == 0) {
+        refdec = (unsigned char *)malloc((size_t)w * h * 3);
+        for (y = 0; y < h; y++) for (x = 0; x < w; x++) { unsigned char *px = buf + (size_t)(bu ? h - 1 - y : y) * pitch + x * ps;
+          refdec[(y * w + x) * 3] = px[tjRedOffset[pf]]; refdec[(y * w + x) * 3 + 1] = px[tjGreenOffset[pf]]; refdec[(y * w + x) * 3 + 2] = px[tjBlueOffset[pf]]; }
+      } else for (y = 0; y < h && !bad; y++) for (x = 0; x < w && !bad; x++) {
+        unsigned char *px = buf + (size_t)(bu ? h - 1 - y : y) * pitch + x * ps;
+        if (px[tjRedOffset[pf]] != refdec[(y * w + x) * 3] || px[tjGreenOffset[pf]] != refdec[(y * w + x) * 3 + 1] || px[tjBlueOffset[pf]] != refdec[(y * w + x) * 3 + 2]) {
+          bad = 1; snprintf(why, sizeof(why), "tjDecompress2 call %d (pf=%d bottomup=%d pad=%d, after %d calls on the same handle): pixel (%d,%d) is not where this call's layout puts it", k, pf, bu, pad, k, x, y); }
+      }
+    }
+    tjFree(jp); free(buf);
+  }
+  if (bad) printf("O fail pfleg %s\n", why); else printf("O ok\n");
+  tjFree(ref); free(refdec); free(pic); tjDestroy(hc); tjDestroy(hd);
+  return 1;
+}
+
 static int dispatch_c10(toks_t *t)
 {
   const char *op = t->tok[0];
   if (!strcmp(op, "cconv")) return op_cconv(t);
   if (!strcmp(op, "dconv")) return op_dconv(t);
   if (!strcmp(op, "pfeq")) return op_pfeq(t);
+  if (!strcmp(op, "pfleg") && t->n >= 5) return op_pfleg(t);
   return 0;
 }
